@@ -197,6 +197,19 @@ def run(ctx):
                 continue
             k = case['k']
             g, st, cache = create_cached_guard(MemoryStorage(), polcase.make_checker(k), maxsize=pick(rng, [None, 0, 1, 2, 256]))
+            # a pool of inquiries with (probably) different answers: hits must be logged with their own answer
+            inq_main, inq_descs = inq, {id(inq): repr(case['inquiry'])}
+            pool = [inq]
+            try:
+                other = polcase.gen_store_case(rng, k=k, npol=1)['inquiry']
+                o2 = proto.build_inquiry(other)
+                pool.append(o2)
+                inq_descs[id(o2)] = repr(other)
+            except Exception:
+                pass
+            o3 = proto.build_inquiry({'resource': '', 'action': '', 'subject': '', 'context': {}})
+            pool.append(o3)
+            inq_descs[id(o3)] = 'empty inquiry'
             present = []
             asked_since_mut = False
             hist = []
@@ -214,6 +227,7 @@ def run(ctx):
                     asked_since_mut = False
                     hist.append('del')
                 else:
+                    inq = pick(rng, [inq_main, inq_main] + pool)
                     L.take()
                     info0 = cache.info()
                     answer = g.is_allowed(inq)
@@ -224,7 +238,8 @@ def run(ctx):
                     hist.append('ask')
                     out.evaluations += 1
                     out.count('cached:' + ('hit' if was_hit else 'miss'))
-                    desc = {'checker': k, 'policies': [repr(p) for p in case['policies']], 'inquiry': repr(case['inquiry']),
+                    hist[-1] = 'ask ' + inq_descs[id(inq)]
+                    desc = {'checker': k, 'policies': [repr(p) for p in case['policies']], 'inquiry': inq_descs[id(inq)],
                             'history': list(hist), 'cached': True}
                     for what, sig in check_call(out, desc, answer, arecs, grecs, present, matches, 'uid', hit=was_hit):
                         f = Failure('oracle', desc, {'answer': answer, 'decision_log': [r.getMessage()[:60] for r in grecs]},
